@@ -11,7 +11,8 @@
      3  every placed line is allowed: at most once per (region, line); its end points are one of the longest
         inside runs (> 2 px) of the detected baseline in that region (Allowed of RegionAssign); every point of
         it lies on the detected baseline
-     4  its outline is clipped: covers only cells of the region, in the row of the line
+     4  its outline is clipped: covers only cells of the region, in the row of the line (tall = 1: ascender height 3, the
+        outline band also covers the row above)
      5  every line wholly inside a region (> 2 px) is placed there with its points unchanged (Mandatory)
      6  (Detailed only; a mismatch is MODEL-DRIFT) the placed pairs are exactly those of the detailed model
 
@@ -45,7 +46,7 @@ OnBaseline(k) == LET l == TLines[P(k).line]
 Clipped(k) == LET r == ShapeNamed(P(k).region)
                   l == TLines[P(k).line]
               IN \A m \in 1..Len(P(k).cells) : /\ <<P(k).cells[m][1], P(k).cells[m][2]>> \in r.cells
-                                               /\ P(k).cells[m][2] = l.j
+                                               /\ P(k).cells[m][2] \in (IF Tr.tall = 1 THEN {l.j - 1, l.j} ELSE {l.j})
 A1 == Tr.outcome = "ok"
 A2 == Distinct([k \in 1..NP |-> P(k).id])
 A3 == /\ \A k \in 1..NP : WellFormed(k)
